@@ -44,7 +44,7 @@ class W:
         mods.update(models.MORE_MODELS)
         mods.update(models.VEC_MODELS)
         mods.update(models.RESULT_MODELS)
-        self.it = mir.Interp(ms.dump, ms.decls, self.sem, models=mods)
+        self.it = mir.Interp(ms.dump, ms.decls, self.sem, models=mods, max_paths=40000)
         self.decls = ms.decls
         self.vnames = [v for v, _ in self.decls.enums.lookup("Value", "model")]
         self.qnames = [v for v, _ in self.decls.enums["QuantityType"]]
@@ -624,9 +624,12 @@ def check(run):
         run.functions += ["bindings model::into_group_quantity (MIR)", "bindings model::merge_grouped_quantities + its and_modify closure (MIR)",
                           "bindings model::add_to_ingredient_list, expand_with_ingredients, combine_ingredients_selected (MIR)"]
         group_part(run, ms, items)
-        shapes = [(0, 1), (1, 1), (2, 1), (1, 2), (2, 2)] if run.tier == "quick" else [(0, 1), (1, 1), (2, 1), (1, 2), (2, 2), (3, 2), (2, 3)]
+        shapes = [(0, 1), (1, 1), (2, 1), (1, 2), (2, 2)] if run.tier == "quick" else [(0, 1), (1, 1), (2, 1), (1, 2), (2, 2), (3, 1), (0, 3)]
         for nl, nr in shapes:
-            merge_part(run, ms, items, nl, nr)
+            try:
+                merge_part(run, ms, items, nl, nr)
+            except mir.Unsupported as e:
+                run.inconclusive.append("encoder (merge %d<-%d): %s" % (nl, nr, e))
         for shape in ([(2, 2), (3, 2)] if run.tier == "quick" else [(2, 2), (3, 2), (3, 3), (4, 3)]):
             combine_part(run, ms, items, shape)
         run.functions += ["bindings model::into_simple_recipe, into_item, From<&cooklang::{Ingredient,Cookware,Timer}> (MIR)"]
@@ -675,7 +678,7 @@ def check(run):
         "the kind of a value is the unit_type of its key",
         "real+delta float model; per-slot sums compared within n*2^-52 relative to the sum of magnitudes",
     ]
-    run.bounds += ["merge: left/right maps of 0..2 x 1..2 entries (3 in the thorough tier)",
+    run.bounds += ["merge: left/right maps of 0..2 x 1..2 entries (plus 3<-1 and 0<-3 in the thorough tier)",
                    "combine: 2..3 ingredients x 2 distinct selected indices (up to 4 x 3 in the thorough tier), numeric amounts with units"]
     run.not_covered += [
         "view half: amounts / units of the carried-over components beyond presence (Number::value, Quantity::unit are uninterpreted), metadata, "
